@@ -324,6 +324,22 @@ class _S:
         return Sym(ops.int_bitop('BitXor', ops.term(a, 'int'), ops.term(b, 'int')), 'int')
 
     @staticmethod
+    def is_slice(x, base, lo, hi):
+        """x was computed as the python slice base[lo:hi] (decided on the slice bounds: integer reasoning only)"""
+        info = ops.SLICE_INFO.get(ops.term(x).get_id())
+        if info is None:
+            return False
+        b, lo_c, n = info
+        if not b.eq(ops.term(base)):
+            return False
+        L = ops.blen(b)
+        lo_t, hi_t = ops.term(lo, 'int'), ops.term(hi, 'int')
+        lo_w = z3.If(lo_t > L, L, lo_t)
+        hi_w = z3.If(hi_t > L, L, hi_t)
+        n_w = z3.If(hi_w > lo_w, hi_w - lo_w, z3.IntVal(0))
+        return ops.sbool(z3.And(n == n_w, z3.Or(n_w == 0, lo_c == lo_w)))
+
+    @staticmethod
     def toint(x):
         """floor of a non-negative real (python int() on non-negative floats)"""
         return Sym(z3.ToInt(ops.term(x, 'real')), 'int')
